@@ -477,3 +477,18 @@ Example C15_witness_full :
   reverse_lookup (ps_s (prun h default_params true ms)) 3%N = ["cc.aa.pb"] /\
   ps_p (prun h default_params true ms) = tight /\ ps_allow (prun h default_params true ms) = false.
 Proof. vm_compute. repeat split. Qed.
+
+(** Long segments: two uuid-shaped names that agree on the first 32 characters of the uuid, and two
+    64-character names (valid once max_segment_length is 64) that agree on the first 32, are
+    different valid names with DIFFERENT key pre-images — the model hashes whole segments (a key
+    function that looked only at a prefix of each segment would merge them; seeded change C15-H). *)
+Example C15_long_segments_have_distinct_keys :
+  let p64 := {| p_min_seg := 2; p_max_seg := 64; p_max_levels := 16 |} in
+  let u1 := "123e4567-e89b-12d3-a456-426614174000.pb" in
+  let u2 := "123e4567-e89b-12d3-a456-42661417ffff.pb" in
+  let l1 := "aaaaaaaaaaaaaaaabbbbbbbbbbbbbbbbccccccccccccccccdddddddddddddddd.pb" in
+  let l2 := "aaaaaaaaaaaaaaaabbbbbbbbbbbbbbbbccccccccccccccccddddddddddddddd0.pb" in
+  valid default_params u1 /\ valid default_params u2 /\ name_key_preimage u1 <> name_key_preimage u2 /\
+  valid p64 l1 /\ valid p64 l2 /\ normalize default_params l1 = None /\
+  name_key_preimage l1 <> name_key_preimage l2.
+Proof. vm_compute. repeat split; try reflexivity; intros H; discriminate H. Qed.
